@@ -126,6 +126,10 @@ func arraySliceFunc(_ *ctx.EvalCtx, receiver object.Object, args ...object.Objec
 		end = elemsLen
 	}
 
+	if end < start {
+		end = start
+	}
+
 	return &object.Array{Elements: elems[start:end]}, nil
 }
 
